@@ -180,6 +180,7 @@ def build(chk):
         chk.engine_error('C18.bisect: no returning path')
     build_chandrupatla(chk, I)
     bounded_chandrupatla(chk)
+    bounded_integer_brackets(chk)
     chk.lemmas += ['L4 (cited)']
     chk.assumptions += [
         'reals, not floats (the midpoint is exact; IEEE rounding of (xmin+xmax)/2 is not modelled)',
@@ -372,6 +373,55 @@ def replay_chand_scalar(env):
         if abs(s - v) > 1e-9 * (hi - lo):
             bad.append('%s: scalar call returns %r, one-element vector call returns %r' % (name, s, v))
     return {'confirmed': bool(bad), 'detail': '; '.join(bad) if bad else 'scalar and vector calls agree on the native suite'}
+
+
+def bounded_integer_brackets(chk):
+    """BOUNDED stand-in for the one dimension of the input space the deductive part abstracts away: the dtype of the bracket
+    arrays. The executor's arrays are real-valued; a bracket handed over as an INTEGER-typed ndarray (np.arange, np.full(n, 0),
+    np.array([0])) is an ordinary element-wise bracket, and a store of a midpoint into such an array truncates."""
+    import numpy as np
+    from copulas.optimize import bisect, chandrupatla
+    rng = np.random.RandomState(chk.seed or 0)
+    nfun = 12 if chk.tier == 'quick' else 300
+    evals = 0
+    reported = set()
+    for k in range(nfun):
+        n = int(rng.choice([1, 2, 7, 100, 1000]))
+        lo = rng.randint(-5, 3, n)
+        hi = lo + rng.randint(1, 12, n)
+        roots = lo + rng.uniform(0.02, 0.98, n) * (hi - lo)
+        slopes = 10.0 ** rng.uniform(-3, 3, n)
+        kind = str(rng.choice(['linear', 'cubic', 'tanh']))
+        f = {'linear': lambda x: slopes * (x - roots), 'cubic': lambda x: slopes * (x - roots) ** 3,
+             'tanh': lambda x: np.tanh(slopes * (x - roots))}[kind]
+        for solver, name in ((bisect, 'bisect'), (chandrupatla, 'chandrupatla')):
+            for dt in ('int64', 'int32'):
+                a, b = lo.astype(dt), hi.astype(dt)
+                with np.errstate(all='ignore'):
+                    out = np.asarray(solver(f, a.copy(), b.copy()), dtype=float)
+                    fo = f(out)
+                evals += n
+                width = (hi - lo).astype(float)
+                if name == 'bisect':
+                    ok = np.abs(out - roots) <= 1e-8
+                else:
+                    ok = (np.abs(out - roots) <= 1e-9 * width) | (fo == 0)
+                ok &= (out >= lo) & (out <= hi)
+                if not ok.all() and name not in reported:
+                    reported.add(name)
+                    i = int(np.where(~ok)[0][0])
+                    chk.bounded_violation('C18.%s.integer_brackets.bounded' % name,
+                                          {'solver': name, 'dtype': dt, 'kind': kind, 'n': n, 'lane': i, 'lo': int(lo[i]),
+                                           'hi': int(hi[i]), 'root': float(roots[i]), 'slope': float(slopes[i])},
+                                          '%s(f, xmin, xmax) with %s brackets [%d, %d] returned %r; the root is %r (error '
+                                          '%.3g)' % (name, dt, lo[i], hi[i], float(out[i]), float(roots[i]),
+                                                     abs(float(out[i] - roots[i]))))
+    chk.bounded.append({'name': 'C18.integer_brackets.bounded', 'clause': 'a root within tolerance, inside the bracket, for '
+                        'brackets given as integer-typed arrays', 'bound': '%d generated vector functions (linear/cubic/'
+                        'tanh, slopes 1e-3..1e3, lengths 1..1000) x {bisect, chandrupatla} x {int64, int32} brackets, seed %d'
+                        % (nfun, chk.seed or 0), 'evaluations': evals, 'distinct_nontrivial': nfun * 4,
+                        'rule': 'one case = one generated vector function with one solver and one dtype; evaluations counts '
+                                'lanes'})
 
 
 def bounded_chandrupatla(chk):
